@@ -179,8 +179,91 @@ def scenario(cname, rnd, Stub):
         facts += [nf == 1, kf(SELF, 0) == keyv, vf(SELF, 0) == cterm["c1"], z3.ForAll([v], hasf(SELF, v) == (v == keyv)), atf(SELF, keyv) == cterm["c1"],
                   z3.Distinct(other, *vals.values())]
         return inst, o, facts, vals
-    if cname == "Computation":
-        return None
+    class Fn:
+        """a user callable with one fixed behaviour: returns `ret` or raises"""
+        def __init__(self, name, ret, raises=False):
+            self.name, self.ret, self.raises = name, ret, raises
+
+        def __call__(self, *a, **k):
+            if self.raises:
+                raise RuntimeError(self.name)
+            return self.ret
+
+        def __repr__(self):
+            return f"Fn({self.name})"
+
+    def fn_facts(fv, f, retv):
+        a = z3.Const("a!cc", T.Val)
+        x = T.call_exc(fv, a)
+        out = [z3.ForAll([a], T.call_ok(fv, a) == (not f.raises)), T.iscallable(fv), z3.Not(T.isev(fv))]
+        if f.raises:
+            out.append(z3.ForAll([a], z3.And(T.is_cls["Exception"](x), z3.Not(T.is_cls["EvaluationError"](x)), z3.Not(T.is_cls["KeyError"](x)), z3.Not(T.missing(x)))))
+        else:
+            out.append(z3.ForAll([a], T.call_val(fv, a) == retv))
+        return out
+    if cname == "Value":
+        from labrea import Value
+        inst = Value("val-c0")
+        facts.append(z3.Function("fld!Value.value", T.Ev, T.Val)(SELF) == vals["val-c0"])
+        return inst, o, facts, vals
+    if cname in ("Apply", "Bind"):
+        from labrea.types import Apply, Bind
+        f = Fn("f1", "ret-f1" if cname == "Apply" else stubs["c2"], raises=rnd.random() < 0.3)
+        fv = z3.Const("cv!f1", T.Val)
+        vals["ret-f1"] = z3.Const("cv!ret-f1", T.Val)
+        facts.append(z3.Distinct(fv, *vals.values()))
+        if cname == "Apply":
+            tables["c1"] = dict(tables["c1"])
+            if tables["c1"]["evaluate"][0] == "ok":
+                tables["c1"]["evaluate"] = ("ok", f)
+            stubs["c1"].table = tables["c1"]
+            # the facts about c1 were stated with its sentinel value: restate with the function value
+            facts = [x for x in facts if "cv!c1" not in str(x)] + [z3.Distinct(*vals.values())]
+            vals2 = dict(vals)
+            vals2[f] = fv
+            facts += facts_for(cterm["c1"], tables["c1"], O1, vals2, keyconst)
+            inst = Apply(stubs["c0"], stubs["c1"])
+            facts += [fld("Apply", "evaluatable") == cterm["c0"], fld("Apply", "func") == cterm["c1"]] + fn_facts(fv, f, vals["ret-f1"])
+        else:
+            inst = Bind(stubs["c0"], f)
+            facts += [fld("Bind", "evaluatable") == cterm["c0"], z3.Function("fld!Bind.func", T.Ev, T.Val)(SELF) == fv] + fn_facts(fv, f, T.val_of_ev(cterm["c2"]))
+        return inst, o, facts, vals
+    if cname == "EvaluatableKwargs":
+        from labrea.arguments import EvaluatableKwargs
+        k = rnd.randint(0, 3)
+        items = names[:k]
+        inst = EvaluatableKwargs(**{f"k{n}": stubs[n] for n in items})
+        nf = z3.Function("fld!EvaluatableKwargs.kwargs#n", T.Ev, T.I)(SELF)
+        kf = z3.Function("fld!EvaluatableKwargs.kwargs#key", T.Ev, T.I, T.Val)
+        vf = z3.Function("fld!EvaluatableKwargs.kwargs#val", T.Ev, T.I, T.Ev)
+        facts += [nf == len(items)] + [vf(SELF, i) == cterm[x] for i, x in enumerate(items)] + [kf(SELF, i) == T.val_of_key(z3.Const(f"key!k{x}", T.Key)) for i, x in enumerate(items)]
+        return inst, o, facts, vals
+    if cname == "CaseWhen":
+        from labrea.conditional import CaseWhen
+        truth = rnd.choice([True, False])
+        pred = Fn("p1", truth, raises=rnd.random() < 0.2)
+        pv = z3.Const("cv!p1", T.Val)
+        with_default = rnd.random() < 0.5
+        tables["c1"] = dict(tables["c1"])
+        if tables["c1"]["evaluate"][0] == "ok":
+            tables["c1"]["evaluate"] = ("ok", pred)
+        stubs["c1"].table = tables["c1"]
+        facts = [x for x in facts if "cv!c1" not in str(x)] + [z3.Distinct(*vals.values()), z3.Distinct(pv, *vals.values())]
+        vals2 = dict(vals)
+        vals2[pred] = pv
+        facts += facts_for(cterm["c1"], tables["c1"], O1, vals2, keyconst)
+        c3 = Stub("c3", random_table(rnd, "c3", o))
+        t3 = z3.Const("cc!c3", T.Ev)
+        vals["val-c3"] = z3.Const("cv!c3", T.Val)
+        facts += facts_for(t3, c3.table, O1, vals, keyconst) + [z3.Distinct(t3, *cterm.values(), SELF)]
+        inst = CaseWhen(stubs["c0"], [(stubs["c1"], stubs["c2"])], c3) if with_default else CaseWhen(stubs["c0"], [(stubs["c1"], stubs["c2"])])
+        n_ = z3.Function("fld!CaseWhen.cases#n", T.Ev, T.I)(SELF)
+        a0 = z3.Function("fld!CaseWhen.cases#at0", T.Ev, T.I, T.Ev)
+        a1 = z3.Function("fld!CaseWhen.cases#at1", T.Ev, T.I, T.Ev)
+        tv = T.TRUE if truth else T.FALSE
+        facts += [fld("CaseWhen", "dispatch") == cterm["c0"], n_ == 1, a0(SELF, 0) == cterm["c1"], a1(SELF, 0) == cterm["c2"],
+                  z3.Function("fld!CaseWhen.default", T.Ev, T.Val)(SELF) == (T.val_of_ev(t3) if with_default else T.MISSING)] + fn_facts(pv, pred, tv)
+        return inst, o, facts, vals
     return None
 
 
@@ -237,6 +320,17 @@ def crosscheck(cname, seed=0, samples=20, repo=None):
                 mismatches.append((cname, meth, o, f"native returns {nat[1]!r} but every consistent symbolic path fails", [str(c)[:60] for c in consistent[0].pc[:3]]))
             if nat[0] == "exc" and kinds == {"ok"}:
                 mismatches.append((cname, meth, o, "native fails but every consistent symbolic path returns", nat))
+            # key sets of keys()/explain() on the consistent returning paths
+            if nat[0] == "ok" and meth in ("keys", "explain") and isinstance(nat[1], set) and nat[1] <= set(KEYS):
+                keyconst = {k: z3.Const("key!" + k, T.Key) for k in KEYS}
+                for p in [p for p in consistent if p.kind == "ok" and p.value[0] == "kset"]:
+                    for k in KEYS:
+                        s = z3.Solver()
+                        s.set("timeout", 400)
+                        s.add(*hyp, *facts, *p.pc, *p.defs)
+                        s.add(z3.IsMember(keyconst[k], p.value[1]) != (k in nat[1]))
+                        if s.check() == z3.sat:
+                            mismatches.append((cname, meth, o, f"native {meth} = {sorted(nat[1])} but the symbolic set disagrees on {k}", None))
             # value check for evaluate on single-valued results
             if nat[0] == "ok" and meth == "evaluate" and isinstance(nat[1], str) and nat[1] in vals:
                 okp = [p for p in consistent if p.kind == "ok"]
@@ -250,7 +344,7 @@ def crosscheck(cname, seed=0, samples=20, repo=None):
     return mismatches, checked
 
 
-CLASSES = ["Logged", "PipelineStep", "Iter", "EvaluatableArgs", "Coalesce", "Switch", "Overloaded"]
+CLASSES = ["Logged", "PipelineStep", "Iter", "EvaluatableArgs", "Coalesce", "Switch", "Overloaded", "Value", "Apply", "Bind", "EvaluatableKwargs", "CaseWhen"]
 
 if __name__ == "__main__":
     import sys
